@@ -56,7 +56,14 @@ type Case struct {
 	// First: for updates-body, the first write of the transaction (before the Cut registrations): "" none, "truncate-get",
 	// "truncate-post-get", "truncate-all", "update", "delete"
 	First string `json:"first,omitempty"`
+	// Ctx: state of the request's context when the panic is recovered: "" live, "canceled" (the request arrived with a
+	// canceled context), "deadline" (its deadline had expired), "canceled-in-mw" (a middleware inside Recovery derived a
+	// cancellable context, attached it with SetRequest and its deferred cancel ran while the panic unwound). None of them is a
+	// broken connection reported by the panic value.
+	Ctx string `json:"ctx,omitempty"`
 }
+
+var ctxStates = []string{"", "", "", "canceled", "deadline", "canceled-in-mw"}
 
 var firsts = []string{"", "", "truncate-get", "truncate-post-get", "truncate-all", "update", "delete"}
 
@@ -233,8 +240,19 @@ func checkCase(c *Case) (err error) {
 		}
 	}
 	special := fox.HandlerFunc(boom)
+	timeoutMw := func(next fox.HandlerFunc) fox.HandlerFunc {
+		return func(fc fox.Context) {
+			if c.Ctx == "canceled-in-mw" {
+				cctx, cancel := context.WithCancel(fc.Request().Context())
+				defer cancel()
+				fc.SetRequest(fc.Request().WithContext(cctx))
+			}
+			next(fc)
+		}
+	}
 	opts := []fox.GlobalOption{
 		fox.WithMiddleware(fox.CustomRecoveryWithLogHandler(logs, fox.DefaultHandleRecovery)),
+		fox.WithMiddleware(timeoutMw),
 		fox.WithNoRouteHandler(special), fox.WithNoMethodHandler(special), fox.WithOptionsHandler(special),
 	}
 	f, e := fox.New(opts...)
@@ -259,6 +277,16 @@ func checkCase(c *Case) (err error) {
 		method, path = "OPTIONS", "/only-post"
 	}
 	req := httptest.NewRequest(method, path+"?query=qv", nil)
+	switch c.Ctx {
+	case "canceled":
+		cctx, cancel := context.WithCancel(req.Context())
+		cancel()
+		req = req.WithContext(cctx)
+	case "deadline":
+		cctx, cancel := context.WithDeadline(req.Context(), time.Unix(1, 0))
+		defer cancel()
+		req = req.WithContext(cctx)
+	}
 	req.Header = http.Header{}
 	for _, h := range c.Headers {
 		req.Header[h.Name] = append(req.Header[h.Name], h.Value)
@@ -413,6 +441,7 @@ func genCase(t *rapid.T) *Case {
 		c.Cut = gen.IntR(t, 0, 4, "cut")
 		c.First = gen.Pick(t, firsts, "first")
 	}
+	c.Ctx = gen.Pick(t, ctxStates, "ctx")
 	n := gen.IntR(t, 0, 6, "nheaders")
 	for i := 0; i < n; i++ {
 		tok := fmt.Sprintf("tok%dZ%dq", i, gen.IntR(t, 100000, 999999, "tok"))
@@ -468,6 +497,7 @@ func TestExhaustive(t *testing.T) {
 					if kw[1] == "updates-body" {
 						c.First = firsts[(cut+len(v)+len(p))%len(firsts)]
 					}
+					c.Ctx = ctxStates[(cut+len(v)+2*len(p)+len(kw[0]))%len(ctxStates)]
 					stats.Eval()
 					stats.NonTrivial(fmt.Sprintf("exh|%+v", *c))
 					if err := checkCase(c); err != nil {
